@@ -155,6 +155,7 @@ def _run(tape, out, elfi, root):
     family = tape.choice('family', ['rejection', 'rejection', 'smc'])
     abstract.append((family,))
     smc_base = [None]
+    smc_master = [None]
 
     def gen_wl(method=None):
         method = family
@@ -259,13 +260,20 @@ def _run(tape, out, elfi, root):
                 and last_wl[1] == version:
             wl = pycopy.deepcopy(last_wl[0])
             if wl['method'] == 'smc' and op != 'rerun_same':
+                # every SMC run over the pool uses a PREFIX of one master list of rounds (a
+                # list that merely has the same length but another value in some round would
+                # give the later rounds other proposals at indices the pool already holds)
                 k = list(wl['objective'])[0]
-                lst = list(wl['objective'][k])
-                if op == 'rerun_larger' and len(lst) < 5:
-                    lst.append(lst[-1] if k == 'thresholds' else 0.5)
-                elif op == 'rerun_smaller' and len(lst) > 1:
-                    lst.pop()
-                wl['objective'] = {k: lst}
+                if smc_master[0] is None:
+                    smc_master[0] = list(wl['objective'][k])
+                cur = len(wl['objective'][k])
+                if op == 'rerun_larger' and cur < 5:
+                    if cur == len(smc_master[0]):
+                        smc_master[0].append(smc_master[0][-1] if k == 'thresholds' else 0.5)
+                    cur += 1
+                elif op == 'rerun_smaller' and cur > 1:
+                    cur -= 1
+                wl['objective'] = {k: list(smc_master[0][:cur])}
             if wl['method'] == 'rejection' and op != 'rerun_same':
                 k = list(wl['objective'])[0]
                 if k == 'n_sim':
